@@ -154,14 +154,17 @@ class State:
         self.pc = []
         self.notes = []
         self.steps = 0
+        self.formatter_cell = None
+        self.strattrs = {}
 
     def clone(self):
         return copy.deepcopy(self)
 
 
 class PathResult:
-    def __init__(self, kind, pc, value=None, msg="", notes=None):
+    def __init__(self, kind, pc, value=None, msg="", notes=None, st=None):
         self.kind, self.pc, self.value, self.msg, self.notes = kind, pc, value, msg, notes or []
+        self.strattrs = st.strattrs if st is not None else {}
 
     def __repr__(self):
         return "Path(%s, %r, %s)" % (self.kind, self.value, self.msg[:60])
@@ -322,6 +325,8 @@ class Executor:
             except Exception:
                 pass
             return SymStr("lit", chars=[ord(c) for c in body])
+        if t.startswith('b"'):
+            return Opaque("bytes", t)
         if t.startswith("ZeroSized"):
             return Opaque("zst", t)
         m = re.fullmatch(r"(-?[0-9.]+(?:[eE][-+]?\d+)?|inf|NaN)f64", t)
@@ -394,6 +399,10 @@ class Executor:
             return cands[0]
         if len(cands) > 1:
             raise Unsupported("ambiguous constant %r" % name)
+        # function-local consts are printed with their bare name
+        bare = [f for n, f in self.fns.items() if f.kind == "const" and n == segs[-1]]
+        if len(bare) == 1:
+            return bare[0]
         return None
 
     def eval_const_fn(self, f):
@@ -530,12 +539,26 @@ class Executor:
                 lo, hi = ty_range(ty)
                 if is_conc(exact):
                     ov = not (lo <= exact <= hi)
-                else:
-                    ov = z3.Or(exact < lo, exact > hi)
-                return Struct([self.wrap(exact, ty), ov])
+                    return Struct([self.wrap(exact, ty), ov])
+                ov = z3.Or(exact < lo, exact > hi)
+                # name the result (SSA style) so later terms stay small; the two implications
+                # let the solver drop the modulo as soon as the path asserts "no overflow"
+                t = self.fresh_int(ty, "t")
+                st.pc.append(z3.Implies(z3.Not(ov), t == exact))
+                st.pc.append(z3.Implies(ov, t == self.wrap(exact, ty)))
+                return Struct([t, ov])
             if name.endswith("Unchecked"):
                 return exact
-            return self.wrap(exact, ty)
+            if is_conc(exact):
+                return self.wrap(exact, ty)
+            # wrapping arithmetic (release MIR): name the result, split on "fits / wraps"
+            lo, hi = ty_range(ty)
+            t = self.fresh_int(ty, "w")
+            fits = z3.And(exact >= lo, exact <= hi)
+            st.pc.append(z3.Implies(fits, t == exact))
+            st.pc.append(z3.Implies(z3.Not(fits), t == self.wrap(exact, ty)))
+            st.pc.append(z3.And(t >= lo, t <= hi))
+            return t
         if base in ("Div", "Rem"):
             if ty[0] != "u":
                 if not (ca and cb):
@@ -551,7 +574,9 @@ class Executor:
                 else:
                     b, cb = ub, True
             za, zb = zint(a), zint(b)
-            return za / zb if base == "Div" else za % zb
+            t = self.fresh_int(ty, "q" if base == "Div" else "r")
+            st.pc.append(t == (za / zb if base == "Div" else za % zb))
+            return t
         if base in ("Shl", "Shr"):
             if not cb:
                 ub = self.unique_value(st, b)
@@ -641,6 +666,23 @@ class Executor:
         f = fname_or_fn if isinstance(fname_or_fn, P.Fn) else self.find_fn(fname_or_fn)
         return self.run_fn(f, args, st)
 
+    def find_impl_fn(self, module, method, header_rx):
+        """The function `method` of the impl block in `module` whose header text (read from
+        the source at the impl's span) matches header_rx, e.g. r"impl Display for Pile"."""
+        hits = []
+        for n, f in self.fns.items():
+            if f.kind != "fn":
+                continue
+            m = re.fullmatch(re.escape(module) + r"::<impl at ([^:]+):(\d+):(\d+): (\d+):(\d+)>::" + re.escape(method), n)
+            if not m:
+                continue
+            txt = self.source_span(m.group(1), int(m.group(2)), int(m.group(3)), int(m.group(4)), int(m.group(5)))
+            if re.search(header_rx, txt):
+                hits.append(f)
+        if len(hits) != 1:
+            raise Unsupported("impl fn %s::%s matching %r: %d candidates" % (module, method, header_rx, len(hits)))
+        return hits[0]
+
     def find_fn(self, name):
         if name in self.fns:
             return self.fns[name]
@@ -707,7 +749,11 @@ class Executor:
                 rv = fr.cells.get(0, [Struct([])])[0]
                 st.frames.pop()
                 if len(st.frames) < base_depth:
-                    results.append(PathResult("return", st.pc, rv, notes=st.notes))
+                    pr = PathResult("return", st.pc, rv, notes=st.notes, st=st)
+                    fc = getattr(st, "formatter_cell", None)
+                    if fc is not None:
+                        pr.final_formatter = fc[0].data
+                    results.append(pr)
                     return
                 caller = st.frames[-1]
                 if fr.dest is not None:
@@ -752,14 +798,14 @@ class Executor:
                     if ok:
                         fr.bb, fr.idx = targets["success"], 0
                     else:
-                        results.append(PathResult("panic", st.pc, msg="assert " + msg + " in " + fr.fn.name, notes=st.notes))
+                        results.append(PathResult("panic", st.pc, msg="assert " + msg + " in " + fr.fn.name, notes=st.notes, st=st))
                         return
                 else:
                     okc = z3.Not(v) if neg else v
                     can_ok = self.feasible(st.pc, okc)
                     can_fail = self.feasible(st.pc, z3.Not(okc))
                     if can_fail:
-                        results.append(PathResult("panic", st.pc + [z3.Not(okc)], msg="assert " + msg + " in " + fr.fn.name, notes=list(st.notes)))
+                        results.append(PathResult("panic", st.pc + [z3.Not(okc)], msg="assert " + msg + " in " + fr.fn.name, notes=list(st.notes), st=st))
                     if not can_ok:
                         return
                     st.pc.append(okc)
@@ -830,6 +876,15 @@ class Executor:
                 if isinstance(a, z3.FPRef):
                     return z3.fpNeg(a)
                 return self.wrap(-a, ty)
+            if rv[1] == "PtrMetadata":
+                v = a
+                while isinstance(v, Ref):
+                    v = v.get()
+                if isinstance(v, Struct):
+                    return len(v)
+                if isinstance(v, SymStr) and v.chars is not None:
+                    return len(v.chars)
+                raise Unsupported("PtrMetadata of %r" % (v,))
             raise Unsupported("unop %s" % rv[1])
         if k == "cast":
             v = self.operand(fr, rv[1], st)
@@ -936,7 +991,7 @@ class Executor:
             if cond is not None and not is_conc(cond):
                 s2.pc.append(cond)
             if kind == "panic":
-                results.append(PathResult("panic", s2.pc, msg=str(val) + " in " + fr.fn.name, notes=list(s2.notes)))
+                results.append(PathResult("panic", s2.pc, msg=str(val) + " in " + fr.fn.name, notes=list(s2.notes), st=s2))
                 continue
             f2 = s2.frames[-1]
             if ret_bb is None:
@@ -985,8 +1040,16 @@ class Executor:
                 if dest_ty not in ("!", "?") and not ty_compat(c.ret, dest_ty):
                     continue
                 # the trait's Self type must appear among params/ret
-                tys = [norm_ty(pt) for _, pt in c.params] + [norm_ty(c.ret)]
-                if not any(norm_ty(selfty) in t for t in tys):
+                tys = [pt for _, pt in c.params] + [c.ret]
+                if not any(norm_ty(selfty) in norm_ty(t) or ty_compat(t, selfty) or ty_compat(re.sub(r"^&(mut )?", "", t), selfty) for t in tys):
+                    continue
+                # `<T as Trait<X>>::m`: X is the type of the last parameter (From, TryFrom,
+                # Add<X>, PartialEq<X>, ...) possibly behind a reference
+                tm = re.fullmatch(r"(?:\w+::)*(\w+)<(.*)>", m.group(2).strip(), re.S)
+                if tm and c.params and tm.group(1) in ("From", "TryFrom", "Add", "Sub", "Mul", "Div", "Rem", "AddAssign", "SubAssign", "PartialEq", "PartialOrd"):
+                    if norm_ty(c.params[-1][1]).lstrip("&") != norm_ty(tm.group(2)).lstrip("&"):
+                        continue
+                if tm and tm.group(1) in ("From",) and norm_ty(c.ret) != norm_ty(selfty):
                     continue
                 out.append(c)
             else:
@@ -1106,6 +1169,12 @@ def ty_compat(param_ty, arg_ty):
     a, b = norm_ty(param_ty), norm_ty(arg_ty)
     if a == b:
         return True
+    # single-letter generic parameters in the declared type match anything
+    if re.search(r"(?<![\w:])[A-Z](?![\w:])", a):
+        rx = re.escape(a)
+        rx = re.sub(r"(?<![\w:\\])[A-Z](?![\w:])", ".*", rx)
+        if re.fullmatch(rx, b):
+            return True
     # generic params / impl Trait / closures: be permissive
     if re.fullmatch(r"[A-Z]\w*|impl.*", a):
         return True
